@@ -488,6 +488,18 @@ def r03_6(cx):
                 why = why or 'the destination tail does not move to the entry just appended'
                 continue
             DC = cstr(sym.default_local(dls[0]))
+            # on arrival at the copy loop the destination cursor is the END of the destination's list (tail walk from its head)
+            arr = [x for x in Sym(cx.facts, c, start=0, stop={h}).rows() if x.end == ('stop', h)]
+            if not arr:
+                why = why or 'the copy loop is never reached'
+            for x in arr:
+                v0 = x.env.get(dls[0])
+                while v0 is not None and v0[0] == 'upd':
+                    v0 = v0[1]
+                if v0 is None or v0[0] != 'phi':
+                    why = why or 'the destination cursor starts at %s, not at the end of the destination list (entries already on the list are unlinked)' % (tstr(canon(v0), 80) if v0 else None)
+                else:
+                    why = why or _tail_walk(cx, c, v0, 'core::ops::Index::index(self.states, %s).matches' % DST, 'R03.6', 'copy')
             if p[2] == 'link' and (tgt is None or cstr(tgt) != DC):
                 why = why or 'a copied entry is linked behind %s, not behind the running tail of the destination list' % (tstr(tgt, 60) if tgt else None)
             if p[2] == 'matches' and (tgt is None or cstr(tgt) != DST):
